@@ -609,7 +609,17 @@ def run(ctx) -> None:
     revalidate_head(ctx, RV, gpaths, ci)
     okc, msgc = True, ""
     nclosed = 0
-    for p in walk_body(gpaths):
+
+    def outside_wait_loops(ps):
+        """paths of get() and of its loops, except the body paths of the loop that waits: an iteration of that loop which sees the
+        flag and leaves the loop (break, or the loop test) is continued by the enclosing path, into which the engine splices it"""
+        for p in ps:
+            yield p
+            for e in p.evs:
+                if e.kind == "loop" and not any(x.kind == "wait" for b in e.extra["paths"] for x in b.evs):
+                    yield from outside_wait_loops(e.extra["paths"])
+
+    for p in outside_wait_loops(gpaths):
         c = p.conds().get("self._closed")
         if c is True:
             nclosed += 1
